@@ -42,7 +42,7 @@ META = dict(
     note='The coder (re-packing of the reduced columns by the encoder and its decoding) is not modelled here; that part of C10 '
          'is observed on the implementation only (oracle) and is covered by the coder properties C01-C05.')
 
-QUICK_MAX_BYTES = 12000
+QUICK_MAX_BYTES = 50000
 QUICK_FILES = 40
 
 _state = {}
@@ -529,6 +529,9 @@ def run_source(task):
     out = core.Driver().batch([{'op': 'subset', 'msg': mm, 'idxs': [I for _, I in colls]}])[0]
     if out['n'] != n:
         res['problems'].append({'kind': 'correspondence', 'text': 'model reads n_subsets=%r, implementation %r' % (out['n'], n), 'I': [], 'extra': {}})
+    if not out.get('wf'):
+        res['problems'].append({'kind': 'hypothesis', 'I': [], 'extra': {},
+                                'text': 'decoded message does not satisfy the theorems\' hypotheses (integer n_subsets, one value list per subset)'})
     for (lab, I), a, b, s in zip(colls, impl_out, out['r'], out['sel']):
         tag_b = b if not isinstance(b, str) else b
         if a != tag_b:
@@ -647,11 +650,13 @@ def report(ctx, res):
 def shrink(ctx, res):
     """Greedy shrinking of the index collection of every distinct kind of problem (same kind must persist)."""
     seen = set()
+    done = ctx.__dict__.setdefault('c10_shrunk', {})
     for p in list(res['problems']):
         key = (p['kind'], json.dumps(p['extra'], sort_keys=True))
-        if key in seen or p['kind'] in ('correspondence',) or not p['I']:
+        if key in seen or not p['I'] or done.get(key, 0) >= 2:
             continue
         seen.add(key)
+        done[key] = done.get(key, 0) + 1
         I = list(p['I'])
         changed = True
         budget = 40
@@ -683,7 +688,7 @@ def run(ctx):
     tasks = [{'src': {'file': f}, 'seed': ctx.seed, 'tier': ctx.tier} for f in files]
     rng = ctx.rng('synth')
     bases = [f for f in files if os.path.getsize(f) <= (QUICK_MAX_BYTES if ctx.tier == 'quick' else 60000)]
-    n_synth = 36 if ctx.tier == 'quick' else 400
+    n_synth = 120 if ctx.tier == 'quick' else 1200
     for k in range(n_synth):
         f = bases[k % len(bases)] if k < len(bases) else rng.choice(bases)
         tasks.append({'src': {'file': f, 'synth': '%d:%d:%d' % (ctx.seed, k, rng.randrange(10 ** 9))}, 'seed': ctx.seed, 'tier': ctx.tier})
